@@ -261,6 +261,7 @@ func main() {
 	root := fmt.Sprintf("/dev/shm/verif_regx_%d", os.Getpid())
 	os.MkdirAll(root, 0o755)
 	defer os.RemoveAll(root)
+	ev.OnExit(func() { os.RemoveAll(root) })
 	variants := []string{"update-A", "update-C-next-to-crc", "update-with-locks-B", "remove-A", "add-D-into-fresh-block"}
 	newVer := map[string][]int{"update-A": {2, 1, 1, -1}, "update-C-next-to-crc": {1, 1, 2, -1}, "update-with-locks-B": {1, 2, 1, -1}, "remove-A": {-1, 1, 1, -1}, "add-D-into-fresh-block": {1, 1, 1, 1}}
 	var cases []caseT
